@@ -15,7 +15,7 @@ ALL_IDS = ["C%02d" % i for i in range(1, 21)]
 
 CRON_TRUSTED = [
     "oracle: a single cron expression evaluated in its effective time zone (github.com/furiko-io/cronexpr + Go time/tzdata) is represented by the strictly increasing list of Unix seconds it matches inside the run horizon; the harness computes that list with its own parser-option logic and its own time.Location (structured choice), independent of pkg/execution/util/cron/parser.go and pkg/core/tzutils/parse.go; calendar arithmetic itself is not proved",
-    "modelled rather than verified: container/heap + pkg/utils/heap (array layout and tie-breaking) are abstracted to a finite map key->priority; the stream compares the multiset of requests per tick, the per-key order, and the heap content (key, priority) after every op, and asserts names[queue[i].name]==i via the VerifDump hook",
+    "container/heap (Go standard library: up, down, Init, Push, Pop, Fix, Remove) is transcribed into Cron/ArrayHeap.v together with pkg/utils/heap (Less/Swap/Push/Pop, the name index, Heap.New/Push/Pop/Peek/Search/Update/Delete); the heap stream compares the slice, the index and every result slot by slot with the real heap after every op; the refinement to the key->priority map of Cron/Sched.v is a theorem (Props/C01.v c01_array_heap_*); the cron stream additionally compares the heap content (key, priority) after every op through the VerifDump hook. Hypothesis of the refinement: Push is only called for absent names and New for distinct names (cronschedule.Schedule does exactly that)",
     "the informer is the harness's synchronous SharedIndexInformer: cache updated at the op, handler delivery is a separate op; client-go's real informer is not exercised",
 ]
 
@@ -101,9 +101,9 @@ PROPS = {
     },
     "C20": {
         "props_file": "Props/C20.v",
-        "theorems": ["c20_cron_failed_item_requeued", "c20_cron_never_lost", "c20_cron_retry_converges", "c20_cron_retry_idempotent", "c20_status_failed_pass_requeued", "c20_status_retry_converges", "c20_status_exact_whatever_failed", "c20_queue_failed_start_changes_nothing"],
+        "theorems": ["c20_cron_failed_item_requeued", "c20_cron_never_lost", "c20_cron_retry_converges", "c20_cron_retry_idempotent", "c20_status_failed_pass_requeued", "c20_status_retry_converges", "c20_status_exact_whatever_failed", "c20_queue_failed_start_changes_nothing", "c20_job_world_safe_whatever_fails", "c20_job_deletion_retry_converges"],
         "families": [{"name": "faultdiff", "n_quick": 300, "n_thorough": 8000}, {"name": "recon", "n_quick": 200, "n_thorough": 6000}, {"name": "jcstatus", "n_quick": 200, "n_thorough": 6000}, {"name": "queue", "n_quick": 150, "n_thorough": 4000}],
-        "rule": "faultdiff: one workload run twice on the real controllers - with a finite random pattern of injected server errors / conflicts and without - both driven to quiescence (everything delivered, every rate-limited re-add fired, queue drained), final API state compared: (a) cron reconciler + ExecutionControl under reconciler.Controller.work: fixed JobConfigs, 2-7 schedule requests with duplicates, failures on create; compared: the set of Jobs with identity fields; (b) jobconfig status controller: a Job lifecycle history (create/start/phase/delete/schedule edits), failed status writes and conflicts on stale caches; compared: active/queued references, counts, state, and the high-water marks when no Job was deleted; (c) admission queue: 2-6 Jobs of all policies created up front, failed start and refuse writes; compared: started / refused Jobs and the counter. The faulty cron-reconciler run is also a model case. recon / jcstatus / queue: the streams of C02 / C15 / C05 (their histories include injected failures, conflicts, retries and restarts) tie the worlds the theorems speak about to the code",
+        "rule": "faultdiff: one workload run twice on the real controllers - with a finite random pattern of injected server errors / conflicts and without - both driven to quiescence (everything delivered, every rate-limited re-add fired, queue drained), final API state compared: (a) cron reconciler + ExecutionControl under reconciler.Controller.work: fixed JobConfigs, 2-7 schedule requests with duplicates, failures on create; compared: the set of Jobs with identity fields; (b) jobconfig status controller: a Job lifecycle history (create/start/phase/delete/schedule edits), failed status writes and conflicts on stale caches; compared: active/queued references, counts, state, and the high-water marks when no Job was deleted; (c) admission queue: 2-6 Jobs of all policies created up front, failed start and refuse writes; compared: started / refused Jobs and the counter; (d) job controller: one Job (1-3 indexes, 1-3 attempts, both strategies) whose tasks follow a fixed succeed/fail plan, the kubelet advances every live Pod each round, the Job key is worked only when the informer handlers, a due timer, the 10-minute resync or a failed pass put it on the queue; failures on Pod create/delete, Job update, status update, Job delete for 25 rounds; compared at quiescence: phase, recorded tasks and their results (phase only when an early end makes per-task results timing-dependent), TTL clean-up. The faulty cron-reconciler run is also a model case. recon / jcstatus / queue: the streams of C02 / C15 / C05 (their histories include injected failures, conflicts, retries and restarts) tie the worlds the theorems speak about to the code",
         "trusted": ["as C02, C15, C05 for the three worlds"],
         "assumptions": ["partial: convergence is proved for the cron reconciler and the jobconfig status controller (a burst of n failures on one work item, then success) and 'a failed start changes nothing but the failure' for the admission queue; for the job controller (tasks created / killed / finalised under failures) there is no convergence theorem - its histories with create/delete/update failures are judged by the safety monitors of C08-C13 in their own checks", "Invalid (non-retryable) create errors become events and are not retried, by design: they are excluded from the differential runs", "timeouts after the write was applied (F8 hypothesis) are not generated", "the safety monitors of C02, C05, C06, C08-C13 run on the same fault-injecting streams in those properties' checks; they are not re-reported under C20"],
         "level_text": "Theorems: a failed cron work item is re-queued and leaves API and caches untouched; a queued key is never dropped except by error-free processing or a restart; after any n consecutive server errors the n+1-th attempt yields exactly the fault-free API (the Job exists once, queue empty); re-processing an existing schedule time changes nothing; a failed jobconfig status pass changes nothing and is re-queued, after n failed writes the fault-free status is written, and every settled state is exact whatever failed before; a failed start write in the admission queue only consumes the failure (counter rolled back). Differential runs on the real controllers compare faulty and fault-free final states.",
@@ -142,7 +142,7 @@ PROPS = {
     "C08": {
         "props_file": "Props/C08.v",
         "theorems": ["c08_creates_are_requests", "c08_request_sound", "c08_no_request_for_live_or_succeeded", "c08_gate", "c08_gate_means", "c08_stop_when_complete"],
-        "families": [{"name": "jobsync", "n_quick": 120, "n_thorough": 3000}, {"name": "jobpure", "n_quick": 800, "n_thorough": 40000}],
+        "families": [{"name": "jobsync", "n_quick": 120, "n_thorough": 3000, "shard_cap": 40}, {"name": "jobpure", "n_quick": 800, "n_thorough": 40000}],
         "rule": JOBSYNC_RULE,
         "trusted": JOB_TRUSTED + JOBSYNC_TRUSTED,
         "assumptions": ["history-level clauses (at most one live task per index, retries 0,1,2,..., delay) follow from the per-pass theorems only when the pass's caches cover the API state; with lagging caches they fail - findings F4, F17 (open), judged by the monitor"],
@@ -151,8 +151,8 @@ PROPS = {
     },
     "C09": {
         "props_file": "Props/C09.v",
-        "theorems": ["c09_adopt_or_refuse", "c09_same_request_until_recorded", "c09_listed_forever", "c09_tombstone_is_last_known_state", "c09_lost_only_if_unobserved", "c09_not_lost_refuted"],
-        "families": [{"name": "jobsync", "n_quick": 120, "n_thorough": 3000}, {"name": "jobpure", "n_quick": 800, "n_thorough": 40000}],
+        "theorems": ["c09_adopt_or_refuse", "c09_same_request_until_recorded", "c09_listed_forever", "c09_tombstone_is_last_known_state", "c09_lost_only_if_unobserved", "c09_not_lost_refuted", "c09_recorded_forever"],
+        "families": [{"name": "jobsync", "n_quick": 120, "n_thorough": 3000, "shard_cap": 40}, {"name": "jobpure", "n_quick": 800, "n_thorough": 40000}],
         "rule": JOBSYNC_RULE,
         "trusted": JOB_TRUSTED + JOBSYNC_TRUSTED,
         "assumptions": [],
@@ -162,7 +162,7 @@ PROPS = {
     "C12": {
         "props_file": "Props/C12.v",
         "theorems": ["c12_kill_guard", "c12_kill_not_early", "c12_should_kill_means", "c12_no_create_after_kill", "c12_kill_terminal", "c12_pending_guard", "c12_pending_disabled", "c12_pending_effective_value", "c12_force_guard"],
-        "families": [{"name": "jobsync", "n_quick": 120, "n_thorough": 3000}],
+        "families": [{"name": "jobsync", "n_quick": 120, "n_thorough": 3000, "shard_cap": 40}],
         "rule": JOBSYNC_RULE,
         "trusted": JOB_TRUSTED + JOBSYNC_TRUSTED,
         "assumptions": ["no re-sync is armed for a future kill timestamp: the kill is carried out by the next Pod/Job event or resync (observation, DESIGN.md C12)"],
@@ -171,8 +171,8 @@ PROPS = {
     },
     "C13": {
         "props_file": "Props/C13.v",
-        "theorems": ["c13_finalizer_order", "c13_ttl_not_early", "c13_ttl_effective_value", "c13_ttl_armed"],
-        "families": [{"name": "jobsync", "n_quick": 120, "n_thorough": 3000}],
+        "theorems": ["c13_finalizer_order", "c13_ttl_not_early", "c13_ttl_effective_value", "c13_ttl_armed", "c13_job_removed_after_tasks", "c13_pod_cache_covers_api", "c13_deletion_completes"],
+        "families": [{"name": "jobsync", "n_quick": 120, "n_thorough": 3000, "shard_cap": 40}],
         "rule": JOBSYNC_RULE,
         "trusted": JOB_TRUSTED + JOBSYNC_TRUSTED,
         "assumptions": ["the API server removes an object whose deletionTimestamp is set when its last finalizer is removed (part of the simulation)"],
@@ -182,7 +182,7 @@ PROPS = {
     "C10": {
         "props_file": "Props/C10.v",
         "theorems": ["c10_success_sound", "c10_failed_sound", "c10_exclusive", "c10_decided_iff_complete", "c10_finished_no_live", "c10_succeeded_real"],
-        "families": [{"name": "jobpure", "n_quick": 1500, "n_thorough": 60000}, {"name": "jobsync", "n_quick": 120, "n_thorough": 3000}],
+        "families": [{"name": "jobpure", "n_quick": 1500, "n_thorough": 60000}, {"name": "jobsync", "n_quick": 120, "n_thorough": 3000, "shard_cap": 40}],
         "rule": "jobpure: generated (parallelism shape none/count/keys/matrix, strategy, maxAttempts, kill/deletion/admission-error flags, per-index attempt histories with every outcome incl. OOM, pre-recorded kills, flapping Pods, lost Pods, stored refs lagging the Pods, unsorted refs) evaluated by the real GenerateTaskRefs/UpdateJobTaskRefs/UpdateJobStatusFromTaskRefs/ComputeMissingIndexesForCreation; non-trivial = at least one ref or Pod; distinct by (shape, #refs, #pods, phase). jobsync: histories of the real reconciler (see C08)",
         "trusted": JOB_TRUSTED,
         "assumptions": ["refs whose index hash is not an index of the spec are outside c10_finished_no_live"],
@@ -191,8 +191,8 @@ PROPS = {
     },
     "C11": {
         "props_file": "Props/C11.v",
-        "theorems": ["c11_state_and_phase", "c11_phase_terminal_iff_finished", "c11_counters", "c11_tasks_never_dropped", "c11_times_never_cleared", "c11_times_kept_when_pod_gone"],
-        "families": [{"name": "jobpure", "n_quick": 1500, "n_thorough": 60000}, {"name": "jobsync", "n_quick": 120, "n_thorough": 3000}],
+        "theorems": ["c11_state_and_phase", "c11_phase_terminal_iff_finished", "c11_counters", "c11_tasks_never_dropped", "c11_times_never_cleared", "c11_times_kept_when_pod_gone", "c11_start_time_forever", "c11_tasks_never_dropped_forever"],
+        "families": [{"name": "jobpure", "n_quick": 1500, "n_thorough": 60000}, {"name": "jobsync", "n_quick": 120, "n_thorough": 3000, "shard_cap": 40}],
         "rule": "as C10; the jobsync monitor compares every stored Job version with its predecessor (startTime, finished condition, createdTasks, recorded timestamps)",
         "trusted": JOB_TRUSTED,
         "assumptions": [],
@@ -201,13 +201,13 @@ PROPS = {
     },
     "C01": {
         "props_file": "Props/C01.v",
-        "theorems": ["c01_get_next_least", "c01_fires_of_exact", "c01_population", "c01_tick_terminates_and_spec", "c01_sound_never_early", "c01_once_ordered", "c01_complete_or_capped", "c01_never_more_than_cap", "c01_resumes_from_present"],
-        "families": [{"name": "cron", "n_quick": 160, "n_thorough": 4000}],
-        "rule": "seeded histories of JobConfig populations (1-40, multi-expression, H fields, bounded year fields, tz names / UTC+-offsets / config default), Init, ticks (regular, delayed, stalled, sub-second, clock advancing during Work), schedule/status updates, deletes, re-creates, lagging event delivery, restarts; run on the real CronWorker+InformerWorker; non-trivial = at least one schedule request was made; distinct by (seed, case index, number of requests)",
+        "theorems": ["c01_get_next_least", "c01_fires_of_exact", "c01_population", "c01_tick_terminates_and_spec", "c01_sound_never_early", "c01_once_ordered", "c01_complete_or_capped", "c01_never_more_than_cap", "c01_resumes_from_present", "c01_array_heap_new", "c01_array_heap_push", "c01_array_heap_update", "c01_array_heap_delete", "c01_array_heap_pop_min", "c01_array_heap_histories"],
+        "families": [{"name": "cron", "n_quick": 160, "n_thorough": 4000}, {"name": "heap", "n_quick": 600, "n_thorough": 12000}],
+        "rule": "heap: histories of New(0-32 distinct items, shuffled)/Push(absent)/Pop/Peek/Search/Update/Delete (present and absent names, many priority ties) on the real pkg/utils/heap.Heap; observed after every op: slice in array order, name index, result; independent monitor: content, index, heap order, Peek/Pop least priority. cron: seeded histories of JobConfig populations (1-40, multi-expression, H fields, bounded year fields, tz names / UTC+-offsets / config default), Init, ticks (regular, delayed, stalled, sub-second, clock advancing during Work), schedule/status updates, deletes, re-creates, lagging event delivery, restarts; run on the real CronWorker+InformerWorker; non-trivial = at least one schedule request was made; distinct by (seed, case index, number of requests)",
         "trusted": CRON_TRUSTED,
         "assumptions": ["EnqueueJobConfig does not fail", "the controller clock never goes backwards"],
         "level_text": "Theorems over all populations, all tick histories and all oracle lists: per-key projection of the shared pop loop (with termination), soundness, never early, exactly-once/ordered, completeness with the missed-schedule cap, resume-from-present; model tied to CronWorker/Schedule by a differential stream with heap-state comparison after every op, plus an independent executable restatement of the property as monitor.",
-        "level_note": "Trusted: Coq kernel + vm_compute, the cron oracle (cronexpr/tzdata), the harness. The array heap is abstracted to a map (compared, not proved).",
+        "level_note": "Trusted: Coq kernel + vm_compute, the cron oracle (cronexpr/tzdata), the harness. The array heap of pkg/utils/heap (slice, name index, the sift loops of container/heap) is modelled slot by slot (heap stream) and proved to refine the key->priority map of the cron model: heap order, index consistency, Peek/Pop least priority, Push/Update/Delete as map operations, over all histories.",
     },
     "C03": {
         "props_file": "Props/C03.v",
